@@ -244,7 +244,7 @@ CLAIMS = {
                   'under fault injection',
         ref='DESIGN.md §5 C08'),
     'C03': dict(
-        text='Lean 4 theorems about the quoting model for ALL strings: escape_no_raw, unescape5_escape (round trip), '
+        text='The simple dtml-var (the \'v\' branch of render_blocks_: lookup, ustr, the fast-path test character by character, html_quote) is TRANSLATED from /repo on every run (GenRender.vBlockGen) and proved equal to the interpreter\'s fetchVar (gen_simple_var_is_model). Lean 4 theorems about the quoting model for ALL strings: escape_no_raw, unescape5_escape (round trip), '
              'escape_id_iff, fastpath_sound (stated over Gen.fastPathChars, the character list extracted from '
              'render_blocks_ on every run), forms_agree, plain_unchanged, escChar_cases, gen_escape_table; '
              'correspondence over every code point and special-dense random strings through 21 spellings of the '
